@@ -342,6 +342,27 @@ def x6_fallback_contract(ctx) -> None:
                               "so a verified class that needs them now aborts the whole expansion")
     if not bad:
         ctx.ok("X6", "a fruitless search leaves expand_comb_class as SpecificationNotFound")
+    # ... and what the search itself raises when the universe is exhausted is what that handler is for
+    sm = P.find_method(P.need_class("CombinatorialSpecificationSearcher"), srch[0].func.attr)
+    if sm is None:
+        raise AnalysisError("X6: the search called by expand_comb_class is not a method of the searcher")
+    ctx.analysed(sm)
+    final = [r for r in sm.node.body if isinstance(r, ast.Raise) and r.exc is not None]
+    if not final:
+        raise AnalysisError(f"X6: {sm.qualname} no longer ends by raising when the queue is exhausted")
+    hs = C.handlers_around(g, srch[0])
+    for r in final:
+        exc = norm(r.exc.func if isinstance(r.exc, ast.Call) else r.exc).split(".")[-1]
+        k = P.classes.get(exc)
+        names = ({c.name for c in P.mro(k)} if k is not None else {exc}) | {"Exception", "BaseException", "*"}
+        caught = set()
+        for _t, _h, hn in hs:
+            caught |= {n_.split(".")[-1] for n_ in hn}
+        if caught & names:
+            ctx.ok("X6", f"an exhausted universe ends the search with {exc}, which expand_comb_class catches")
+        else:
+            ctx.violation("X6", r, f"{sm.qualname} ends an exhausted universe with {exc}, but expand_comb_class only catches {sorted(caught) or 'nothing'} around the search: the "
+                          "failure of the forward-only attempt escapes from expand_verified and the attempt with reverse rules is never made")
 
 
 def x7_pack_refusal_is_what_is_caught(ctx) -> None:
